@@ -221,28 +221,7 @@ theorem fx_to_plain {q : XPos} {e : Expr} (h : fx q e = true) (hs : isStarred e 
   | starred v => simp [isStarred] at hs
   | slice a b c => simp [isSlice] at hsl
   | yield v => cases v <;> simp_all [fx]
-  | _ => simp_all [fx, XPos.notTarget]
-
-/-- own levels 1 … 5 do not occur among the kinds allowed in a target position -/
-theorem target_kind {q : XPos} {e : Expr} (hq : q.notTarget = false) (h : fx q e = true) (hs : isStarred e = false) :
-    ∀ l, 1 ≤ l → l ≤ 5 → kindPrec (kindOf e) ≠ some l := by
-  intro l h1 h5
-  cases e with
-  | tuple es => cases es <;> simp [kindOf, kindPrec, Prec.TUPLE] <;> omega
-  | binOp a o b =>
-    cases o <;> simp [kindOf, kindPrec, binOpPrec, Prec.ARITH, Prec.TERM, Prec.POWER, Prec.SHIFT, Prec.BOR, Prec.BXOR, Prec.BAND] <;> omega
-  | unaryOp o x =>
-    cases o <;> simp_all [fx, kindOf, kindPrec, unaryOpPrec, Prec.FACTOR] <;> omega
-  | await x => simp [kindOf, kindPrec, Prec.AWAIT]; omega
-  | namedExpr t v => cases q <;> simp_all [fx, XPos.notTarget]
-  | starred v => simp [isStarred] at hs
-  | _ => simp_all [fx, kindOf, kindPrec]
-
-theorem unparse_1_6 (p : Nat → Bool) (e : Expr) (h : ∀ l, 1 ≤ l → l ≤ 5 → kindPrec (kindOf e) ≠ some l) :
-    unparse p e 1 = unparse p e 6 := by
-  rw [unparse_level_succ p e 1 (h 1 (by omega) (by omega)), unparse_level_succ p e 2 (h 2 (by omega) (by omega)),
-    unparse_level_succ p e 3 (h 3 (by omega) (by omega)), unparse_level_succ p e 4 (h 4 (by omega) (by omega)),
-    unparse_level_succ p e 5 (h 5 (by omega) (by omega))]
+  | _ => simp_all [fx]
 
 /-- only a non-empty tuple and a named expression are parenthesised from level 1 on -/
 theorem prec_ne_zero (e : Expr) (h1 : ∀ t v, e ≠ .namedExpr t v) (h2 : ∀ x xs, e ≠ .tuple (x :: xs)) :
@@ -359,7 +338,6 @@ theorem targetElem_of (e : Expr) (hs : esize e ≤ n) (h : fx .targetElem e = tr
   | starred v => exact .star (H v (by simp [esize] at hs; omega) (by simpa [fx] using h))
   | _ =>
     exact .plain (H _ hs (fx_to_plain h rfl (fx_not_slice h (by decide) (by decide)) (by intro es he; rfl)))
-      (unparse_1_6 p _ (target_kind rfl h rfl))
 
 theorem targetElems_of : (es : List Expr) → esizeList es ≤ n → fxList .targetElem es = true →
     ∀ x ∈ es, TargetElemOK p x
@@ -375,15 +353,14 @@ theorem targetElems_of : (es : List Expr) → esizeList es ≤ n → fxList .tar
 theorem target_of (e : Expr) (hs : esize e ≤ n) (h : fx .target e = true) : TargetOK p e := by
   by_cases hst : ∃ v, e = .starred v
   · obtain ⟨v, rfl⟩ := hst
-    exact targetOK_single p (.star (H v (by simp [esize] at hs; omega) (by simpa [fx] using h))) (by simp [unparse])
+    exact targetOK_single p (.star (H v (by simp [esize] at hs; omega) (by simpa [fx] using h)))
+      (by intro x xs he; cases he)
   by_cases htp : ∃ x xs, e = .tuple (x :: xs)
   · obtain ⟨x, xs, rfl⟩ := htp
     exact targetOK_tuple p x xs
       (targetElems_of p n H (x :: xs) (by simp [esize] at hs; omega) (by simpa [fx, XPos.tupleElem] using h))
   · have hns : isStarred e = false := by
       cases e <;> first | rfl | exact absurd ⟨_, rfl⟩ hst
-    have hnm : ∀ t v, e ≠ .namedExpr t v := by
-      intro t v he; subst he; simp [fx] at h
     have hpl : fx .plain e = true := by
       cases e with
       | tuple es =>
@@ -391,8 +368,7 @@ theorem target_of (e : Expr) (hs : esize e ≤ n) (h : fx .target e = true) : Ta
         | nil => simp [fx, fxList]
         | cons x xs => exact absurd ⟨x, xs, rfl⟩ htp
       | _ => exact fx_to_plain h hns (fx_not_slice h (by decide) (by decide)) (by intro es he; cases he)
-    exact targetOK_single p (.plain (H e hs hpl) (unparse_1_6 p e (target_kind rfl h hns)))
-      (unparse_level_succ p e 0 (prec_ne_zero e hnm (fun x xs he => htp ⟨x, xs, he⟩)))
+    exact targetOK_single p (.plain (H e hs hpl)) (fun x xs he => htp ⟨x, xs, he⟩)
 
 theorem comps_of : (gs : List Comp) → esizeComps gs ≤ n → fxComps gs = true → GoodComps p gs
   | [], _, _ => trivial
@@ -489,18 +465,18 @@ theorem rt_allX (p : Nat → Bool) : ∀ n e, esize e ≤ n → fx .plain e = tr
       simp only [esize] at hs
       exact good_binOp p l o r (ih l (by omega) h.1) (ih r (by omega) h.2)
     | unaryOp o x =>
-      simp only [fx, Bool.and_eq_true] at h
+      simp only [fx] at h
       simp only [esize] at hs
-      exact good_unary p o x (ih x (by omega) h.2)
+      exact good_unary p o x (ih x (by omega) h)
     | lambda po ar va ko kw b =>
       simp only [fx, Bool.and_eq_true] at h
       simp only [esize] at hs
-      exact good_lambda p po ar va ko kw b (pars_of p n ih po (by omega) h.1.1.1.1.2)
+      exact good_lambda p po ar va ko kw b (pars_of p n ih po (by omega) h.1.1.1.1)
         (pars_of p n ih ar (by omega) h.1.1.1.2) (pars_of p n ih ko (by omega) h.1.1.2) h.1.2 (ih b (by omega) h.2)
     | ifExp t b o =>
       simp only [fx, Bool.and_eq_true] at h
       simp only [esize] at hs
-      exact good_ifExp p t b o (ih t (by omega) h.1.1.2) (ih b (by omega) h.1.2) (ih o (by omega) h.2)
+      exact good_ifExp p t b o (ih t (by omega) h.1.1) (ih b (by omega) h.1.2) (ih o (by omega) h.2)
     | dict items =>
       simp only [fx] at h
       simp only [esize] at hs
@@ -568,7 +544,7 @@ theorem rt_allX (p : Nat → Bool) : ∀ n e, esize e ≤ n → fx .plain e = tr
         cases ops with
         | nil => simp at h
         | cons o os =>
-          exact good_compare p l o os c cs' (by simpa using h.1.2) (ih l (by omega) h.1.1.1.2) hcs
+          exact good_compare p l o os c cs' (by simpa using h.1.2) (ih l (by omega) h.1.1.1) hcs
     | call fn args ks =>
       simp only [fx, Bool.and_eq_true] at h
       simp only [esize] at hs
